@@ -11,7 +11,7 @@ ASSUMPTIONS = [
     "a run not quiescent after 400 transitions is reported as non-termination",
 ]
 BOUNDS = {
-    "quick": "pair, chain-3, pair + unconstrained variable; domain 2; min and max; costs in [-2^40,2^40] and non-negative variants",
+    "quick": "pair and chain-3 also with initial values declared on every variable; pair, chain-3, pair + unconstrained variable; domain 2; min and max; costs in [-2^40,2^40] and non-negative variants",
     "thorough": "quick + triangle, domain 3 on the pair, chain-3 with one domain of size 3; bug hunting only (cpu budget): star-3, two pairs, chain-3 with domain 3",
 }
 OUTSIDE = "more than 4 variables, domain above 3, non-binary constraints (unsupported by the algorithm), float costs"
@@ -25,6 +25,11 @@ def jobs(tier):
         for mode in ("min", "max"):
             for rng in ("any", "nonneg"):
                 out.append({"name": "%s-%s-%s" % (s, mode, rng), "spec": spec(s, mode), "range": rng})
+    # variables declared with an initial value (the last value of their domain): the search must still cover the whole domain
+    for s in ("pair", "chain3"):
+        for mode in ("min", "max"):
+            out.append({"name": "%s-init-%s-nonneg" % (s, mode), "range": "nonneg",
+                        "spec": spec(s, mode, initial={v: 1 for v in ("x", "y", "z")[:2 if s == "pair" else 3]})})
     if tier == "thorough":
         # bug-hunting jobs (budgeted, not part of the verdict unless their frontier empties): > 10^5 paths each
         for s in ["star3", "two_pairs"]:
